@@ -82,15 +82,12 @@ func (c *validatorListConstructor) appendNodeValidators(node schema.Node) {
 	c.list = append(c.list, v)
 
 	// An object or array marked `nullable: true` also admits null, exactly like a
-	// nullable literal or a nullable type reference does.
-	if _, ok := v.(*anyNestedStructure); !ok && isNullableBranchNode(node) {
-		c.list = append(c.list, newNullValidator(node, c.parent))
+	// nullable literal or a nullable type reference does. The node is an object or
+	// array node, or the root of a rule-set of the "or" rule which describes them.
+	switch v.(type) {
+	case *objectValidator, *arrayValidator:
+		if node.Constraint(constraint.NullableConstraintType) != nil {
+			c.list = append(c.list, newNullValidator(node, c.parent))
+		}
 	}
-}
-
-func isNullableBranchNode(node schema.Node) bool {
-	if _, ok := node.(schema.BranchNode); !ok {
-		return false
-	}
-	return node.Constraint(constraint.NullableConstraintType) != nil
 }
